@@ -16,7 +16,7 @@ import numpy as np
 from . import attach
 from .attach import ROWS, flat_f, fr, near, real_index
 from .core import dec, enc
-from .world import World, all_well_ids, gen_volume, shape_volumes, shape_wells, well_id
+from .world import World, all_well_ids, gen_volume, narrow_scalar, shape_volumes, shape_wells, well_id
 
 LABELS = [None, None, "", "step", "fill up", "µL", "wash; no"]
 SAFE_LABELS = [None, None, "", "step", "fill up", "µL", "serial 1:2"]
@@ -395,7 +395,7 @@ class Engine:
         d_arg, d_shp = shape_wells(rng, [w for w, _ in chosen])
         if d_shp == "scalar" and k > 1:
             d_arg = [w for w, _ in chosen]
-        return {"op": "distribute", "src": src, "col": col, "dst": dst, "dw": enc(d_arg), "vol": enc(v), "kw": kw,
+        return {"op": "distribute", "src": src, "col": col, "dst": dst, "dw": enc(d_arg), "vol": narrow_scalar(rng, enc(v)), "kw": kw,
                 "_fault": (fault[0], 0) if fault else None, "_shapes": [d_shp]}
 
     def gen_evo(self, kind):
